@@ -99,6 +99,13 @@ def gen_cases(ctx):
                   "feature_list", "orig_feature_qualifier", "orig_annotation"):
         cases.append({"kind": "copy", "probe": probe})
         cases.append({"kind": "copy", "probe": probe, "source": "circularrecord"})
+    # sources whose containers are empty (a record made from a bare sequence, as FASTA readers produce), the copy or the
+    # original then receiving its first feature / annotation / cross-reference
+    for shape in ("bare", "no_features", "no_annotations", "no_dbxrefs"):
+        for probe in ("add_feature", "add_annotation", "add_dbxref", "orig_add_feature", "orig_add_annotation",
+                      "orig_add_dbxref"):
+            for source in (None, "circularrecord"):
+                cases.append({"kind": "copy", "probe": probe, "shape": shape, "source": source})
     # letter case is part of the text: a query differing from the record in case only is not contained
     for _ in range(60 if ctx.quick else 600):
         n = rng.randrange(2, 20)
@@ -136,10 +143,18 @@ def _outcome(fn):
     return "value", v
 
 
-def _annotated(seq="ACGTAC"):
+def _annotated(seq="ACGTAC", shape=None):
     from Bio.Seq import Seq
     from Bio.SeqRecord import SeqRecord
     from Bio.SeqFeature import SeqFeature, FeatureLocation
+    if shape == "bare":
+        return SeqRecord(Seq(seq), id="orig")
+    if shape is not None:
+        return SeqRecord(Seq(seq), id="orig", name="nm", description="d",
+                         dbxrefs=[] if shape == "no_dbxrefs" else ["db:1"],
+                         features=[] if shape == "no_features" else
+                         [SeqFeature(FeatureLocation(1, 3, strand=1), type="misc", qualifiers={"label": ["a"]})],
+                         annotations={} if shape == "no_annotations" else {"note": ["x"]})
     return SeqRecord(Seq(seq), id="orig", name="nm", description="d", dbxrefs=["db:1"],
                      features=[SeqFeature(FeatureLocation(1, 3, strand=1), type="misc", qualifiers={"label": ["a"]})],
                      annotations={"topology": "circular", "note": ["x"]},
@@ -207,7 +222,7 @@ def impl_case(c):
                 "is_circular_record": isinstance(v, CircularRecord),
                 "topology": v.annotations.get("topology")}
     if k == "copy":
-        src = _annotated()
+        src = _annotated(shape=c.get("shape"))
         if c.get("source") == "circularrecord":
             src = CircularRecord(src)           # wrapping an existing CircularRecord copies it too
         cp = CircularRecord(src)
@@ -227,6 +242,13 @@ def impl_case(c):
             cp.letter_annotations["q"][0] = 99
         elif p == "feature_list":
             cp.features.append(cp.features[0])
+        elif p.endswith("add_feature"):
+            from Bio.SeqFeature import SeqFeature
+            (src if p.startswith("orig_") else cp).features.append(SeqFeature(FeatureLocation(0, 2, strand=1), type="new"))
+        elif p.endswith("add_annotation"):
+            (src if p.startswith("orig_") else cp).annotations["comment"] = "new"
+        elif p.endswith("add_dbxref"):
+            (src if p.startswith("orig_") else cp).dbxrefs.append("db:new")
         elif p == "orig_feature_qualifier":
             src.features[0].qualifiers["label"].append("zz")
         elif p == "orig_annotation":
